@@ -416,6 +416,31 @@ class Sym:
         return [(st, (VAL, ("zst", n.get("ty"))))]
 
     def ev_Static(self, n, st):
+        # `static X: LazyLock<T> = LazyLock::new(init)`: the value behind Deref is what `init` returns (run once; whether `init` is
+        # pure is the business of the rule that relies on the value - effects.write_once_static)
+        sb = self.fx.bodies.get(n["path"])
+        if sb is not None and str(sb.get("kind", "")).startswith("Static") and sb["path"] not in self.stack:
+            init = F.strip(sb["body"])
+            if init.get("k") == "Call" and "fn" in init and re.search(r"(LazyLock|LazyCell|Lazy)(::<[^>]*>)?::new$", init["fn"]["path"]) \
+                    and len(init["args"]) == 1:
+                a0 = F.strip(init["args"][0])
+                fv = None
+                if a0.get("k") == "Closure":
+                    fv = ("closure", a0["def"], ())
+                elif a0.get("k") == "Zst" and "fn" in a0:
+                    fv = ("fnref", a0["fn"]["path"], a0["fn"].get("dp"))
+                if fv is not None:
+                    self.stack.append(sb["path"])
+                    try:
+                        outs = self.apply(fv, [], St(conds=st.conds, effects=st.effects, n=st.n), n)
+                    finally:
+                        self.stack.pop()
+                    res = []
+                    for s2, (k2, v2) in outs:
+                        s3 = st.copy()
+                        s3.conds, s3.effects, s3.n = s2.conds, s2.effects, s2.n
+                        res.append((s3, (VAL, v2)))
+                    return res
         return [(st, (VAL, ("static", n["path"])))]
 
     def _unary(self, n, st, f):
@@ -477,6 +502,11 @@ class Sym:
             adt = short_adt(n["adt"])
             if adt == "Option" and n["variant"] == "Some" and len(fields) == 1 and fields[0][1][0] == "payload" and fields[0][1][2] == "Some" \
                     and fields[0][1][3] == "0":
+                out.append((s, (VAL, fields[0][1][1])))
+                continue
+            if adt in ("Range", "RangeInclusive", "RangeFrom", "RangeTo") and fields and len(fields) == len(n["all_fields"]) \
+                    and all(fv[0] == "field" and fv[2] == fn for fn, fv in fields) and len({fv[1] for fn, fv in fields}) == 1:
+                # Range { start: r.start, end: r.end } is r (a range taken apart and put together again)
                 out.append((s, (VAL, fields[0][1][1])))
                 continue
             out.append((s, (VAL, ("adt", adt, n["variant"], fields))))
@@ -675,6 +705,14 @@ class Sym:
                     nxt += self.pmatch(f["pat"], mk_field(t, f["name"]), s3)
                 cur = nxt
             return cur
+        if k == "Slice" and pat.get("slice") is None and not pat.get("suffix") and not pat.get("prefix"):
+            # `[]`: the slice is empty
+            out = []
+            for pol in (True, False):
+                s1 = st.with_cond(("empty", t), pol)
+                if s1 is not None:
+                    out.append((s1, pol))
+            return out
         if k == "Slice" and pat.get("slice") is not None and not pat.get("suffix") and pat.get("prefix") \
                 and pat["slice"].get("k") == "Wild" and all(q.get("k") == "Const" for q in pat["prefix"]):
             # `[b'#', ..]` / `[b' ', b' ', b' ', b' ', ..]`: the byte slice starts with these bytes
